@@ -7,7 +7,7 @@
 (***************************************************************************)
 EXTENDS Integers, Sequences, FiniteSets, TLC, Json, IOUtils
 Rec == ndJsonDeserialize(IOEnv.TRACE)
-Kinds == {"share", "end"}
+Kinds == {"share", "cut", "end"}
 InitSt(e) == [n |-> 0]
 Ok(s)      == [ok |-> TRUE, st |-> s, why |-> "", dev |-> "", site |-> ""]
 No(s, why) == [ok |-> FALSE, st |-> s, why |-> why, dev |-> "", site |-> ""]
@@ -16,9 +16,14 @@ Apply(s, e) ==
             IF ~e.before THEN Ok(s)                  \* the rig did not come up: nothing to judge
             ELSE IF ~e.after THEN No(s, "a stream stopped carrying its bytes after the open, failure or close of another stream on the same session")
             ELSE Ok([s EXCEPT !.n = @ + 1])
+      \* C09 at the front-ends: the session's transport was cut; an application connection that worked (up) must end
+      [] e.ev = "cut" ->
+            IF ~e.up THEN Ok(s)
+            ELSE IF ~e.ended THEN No(s, "an application connection behind a front-end was not ended after its session died (reader or writer left waiting)")
+            ELSE Ok([s EXCEPT !.n = @ + 1])
       [] e.ev = "end" -> IF e.panics = 0 THEN Ok(s) ELSE No(s, "a task panicked")
       [] OTHER -> No(s, "unknown event")
-NonTrivial(e, r) == r.ok /\ e.ev = "share" /\ e.before /\ e.same
+NonTrivial(e, r) == r.ok /\ ((e.ev = "share" /\ e.before /\ e.same) \/ (e.ev = "cut" /\ e.up))
 VARIABLES l, st, bad, devs, skip, scn, cnt, nt
 TK == INSTANCE TraceKit
 TSpec == TK!Spec
